@@ -1133,12 +1133,17 @@ Lemma get_matches_with_unfold fuel' c toks st0 :
   | RPanic s => RPanic s
   | RErr e st =>
       if is_set s_ignore_errors c then
-        let st1 := match add_env c st with ROk s => s | RErr _ s => s | RPanic _ => st end in
+        let st0 := match resolve_pending c st with ROk s => s | RErr _ s => s | RPanic _ => st end in
+        let st1 := match add_env c st0 with ROk s => s | RErr _ s => s | RPanic _ => st0 end in
         let st2 := match add_defaults c st1 with ROk s => s | RErr _ s => s | RPanic _ => st1 end in
-        match add_env c st, add_defaults c st1 with
-        | RPanic s, _ => RPanic s
-        | _, RPanic s => RPanic s
-        | _, _ => RErr e st2
+        match resolve_pending c st with
+        | RPanic s => RPanic s
+        | _ =>
+          match add_env c st0, add_defaults c st1 with
+          | RPanic s, _ => RPanic s
+          | _, RPanic s => RPanic s
+          | _, _ => RErr e st2
+          end
         end
       else RErr e st
   | ROk st =>
@@ -1238,8 +1243,9 @@ Proof.
   rewrite get_matches_with_unfold.
   destruct (cmdline_phase fuel' c toks st0) as [st_c|e s|x] eqn:Ec.
   2: { destruct (is_set s_ignore_errors c); [|discriminate]. cbn zeta.
-       destruct (add_env c s) as [s1|e1 s1|x1]; [| |discriminate];
-         match goal with |- context [add_defaults c ?S] => destruct (add_defaults c S) end; discriminate. }
+       destruct (resolve_pending c s) as [s0|e0 s0|x0]; [| |discriminate];
+         (destruct (add_env c s0) as [s1|e1 s1|x1]; [| |discriminate];
+           match goal with |- context [add_defaults c ?S] => destruct (add_defaults c S) end; discriminate). }
   2: discriminate.
   destruct (resolve_pending c st_c) as [st1| |] eqn:E1; [|discriminate|discriminate]. cbn [rbind].
   destruct (add_env c st1) as [st2| |] eqn:E2; [|discriminate|discriminate]. cbn [rbind].
